@@ -1468,7 +1468,9 @@ func ruleConvPadOrder(c *Ctx, prop string) {
 			for _, in := range b.Instrs {
 				if cl, ok := in.(*ssa.Call); ok {
 					if o := calleeObj(cl); o != nil && qualName(o) == pkgTensor+".Concat" {
-						f = g
+						if f == nil || g.Pos() < f.Pos() {
+							f = g // the first in source order (deterministic)
+						}
 					}
 				}
 			}
